@@ -101,8 +101,9 @@ func NewHostnameResults(ctx context.Context, l *slog.Logger, d time.Duration, ne
 			continue
 		}
 
-		// Save the IP address immediately
-		ips[netip.AddrPortFrom(addr, uint16(iPort))] = struct{}{}
+		// Save the IP address immediately. An IPv4-mapped IPv6 literal is the IPv4 address it denotes (the resolver
+		// branch below unmaps as well): allow lists and the overlay network check are keyed by IPv4 prefixes.
+		ips[netip.AddrPortFrom(addr.Unmap(), uint16(iPort))] = struct{}{}
 	}
 	r.ips.Store(&ips)
 
